@@ -74,6 +74,20 @@ chk("C20", "Dictionary semantics: CrossHair (z3-backed symbolic execution) confi
     TRUST + " CrossHair 0.0.110 trusted; contracts use stand-in values with .shape/.name.",
     "CrossHair contracts (inductive step) + symbolic execution of __eq__ with SMT entailment", "DESIGN.md section 5 C20")
 
+chk("C05", ALG + " (1) the real binning kernel (Python source of the numba kernel, int() = truncation) on symbolic points and limits: the index "
+    "computation forks over the bins and on every path each point must be in the bin the path condition places it in, counts and sums must "
+    "match; (2) the real histogram2d(plot=False) wrapper (automatic/explicit/Quantity limits, sum/mean, default layer, mask, centres, log axis "
+    "with log10 uninterpreted + monotonicity); (3) two-iteration interference analysis of the kernel's prange loop cut out of its AST, a "
+    "conflict being replayed on the compiled kernel with all threads.",
+    TRUST + " numba is assumed to execute the Python semantics of the loop body per iteration; points exactly on a bin edge are left free.",
+    "symbolic execution of hist2d.py_func / histogram2d; SMT (LRA+ToInt); AST-derived two-iteration interference analysis", "DESIGN.md section 5 C05")
+chk("C18", ALG + " The normal vector is fully symbolic (all non-zero vectors, both branches of the z == 0 test); orthonormality, orientation and "
+    "u x v = n are algebraic identities over square-root variables proved in QF_NRA; top/side: the angular-momentum vector handed to the basis "
+    "construction is proved equal to the oracle's sum m r x w over the cells inside the window (every in/out pattern is a path) and the basis "
+    "is re-proved for an arbitrary vector in its place (compositional cut).",
+    TRUST + " Window omitted: concrete position layouts (symbolic radius under a square root is beyond nlsat in minutes).",
+    "symbolic execution of get_direction/VectorBasis; SMT QF_NRA identities", "DESIGN.md section 5 C18")
+
 for pid in ["C01", "C03", "C04", "C05", "C06", "C07", "C08", "C09", "C10", "C11", "C12", "C13", "C14", "C15", "C16",
             "C17", "C18", "C19", "C20"]:
     NA.setdefault(pid, "check under construction in this round (solver-based harness designed in DESIGN.md section 5, not yet registered)")
